@@ -43,7 +43,12 @@ pub fn mode(r: &mut Rng, data: &mut Vec<DataSpec>) -> Mode {
     match r.below(6) {
         0 | 1 => Mode::Hash,
         2 | 3 => {
-            data.push(DataSpec::Random { seed: r.next(), len: 32 });
+            // now and then a key that is legal but looks like "no key" (all zero) or like a mask (all ones)
+            match r.below(12) {
+                0 => data.push(DataSpec::Const { len: 32, byte: 0x00 }),
+                1 => data.push(DataSpec::Const { len: 32, byte: 0xFF }),
+                _ => data.push(DataSpec::Random { seed: r.next(), len: 32 }),
+            }
             Mode::Keyed { key: data.len() - 1 }
         }
         4 => {
@@ -338,6 +343,12 @@ pub fn adapter(r: &mut Rng, len: usize, mix: &AdapterMix) -> AbsorbVia {
             1 if faulty => stormy_script(r),
             _ => clean_script(r),
         };
+        if r.chance(1, 10) {
+            // gathered writes: header-sized and payload-sized slices in one call
+            let n = 1 + r.usize_below(5);
+            let cuts = (0..n).map(|_| *r.pick(&[0u32, 1, 8, 63, 64, 65, 1000, 1023, 1024, 1025, 4096, 70000])).collect();
+            return AbsorbVia::WriteVectored { cuts };
+        }
         return match r.below(5) {
             0 => AbsorbVia::Write,
             1 => AbsorbVia::WriteAll,
@@ -559,6 +570,8 @@ pub fn read_len(r: &mut Rng, thorough: bool) -> usize {
         4 => *r.pick(&[1023usize, 1024, 1025]),
         5 => *r.pick(&[16 * 64 - 1, 16 * 64, 16 * 64 + 1, 32 * 64 + 5]),
         6 => r.usize_below(if thorough { 128 * KIB } else { 32 * KIB }),
+        // one read well beyond 64 KiB of whole blocks (any internal batching of the bulk path shows here)
+        7 if r.chance(1, 4) => 64 * KIB + r.usize_below(if thorough { 600 * KIB } else { 200 * KIB }),
         _ => r.usize_below(400),
     }
 }
@@ -1287,6 +1300,12 @@ pub fn c16_traits(base_seed: u64, i: u64, g: &GenCtx) -> Plan {
     let max = if g.tier_thorough { 200 * KIB } else { 40 * KIB };
     let nh = 1 + r.usize_below(2);
     let mut slot = 0usize;
+    if r.chance(1, 3) {
+        // one-shot entry points of the traits (now and then over an input well beyond 128 KiB)
+        let len = if r.chance(1, 6) { 128 * KIB + r.usize_below(200 * KIB) } else { size(&mut r, max) };
+        data.push(data_spec(&mut r, len));
+        ops.push(Op::TraitOneShot { data: data.len() - 1, off: 0, len, which: r.below(4) as u8, n: xof_len(&mut r) });
+    }
     for _ in 0..nh {
         // KeyInit only builds keyed hashers, Digest::new only plain ones
         let m = match r.below(4) {
@@ -1677,6 +1696,15 @@ const NASTY_PARTS: &[&[u8]] = &[
 ];
 
 pub fn nasty_path(r: &mut Rng) -> Vec<u8> {
+    if r.chance(1, 12) {
+        // "BLAKE3 (" is 8 bytes, a hash and its separator 64 + 2: a double space at byte 54..58 of the name sits where
+        // the other line form would look for it
+        let k = 54 + r.usize_below(5);
+        let mut p: Vec<u8> = (0..k).map(|i| b"abcdefghij"[i % 10]).collect();
+        p.extend_from_slice(b"  ");
+        p.extend_from_slice(*r.pick(&[&b"x"[..], &b""[..], &b"tail  end"[..]]));
+        return p;
+    }
     loop {
         let n = 1 + r.usize_below(5);
         let mut p = Vec::new();
@@ -2052,12 +2080,20 @@ pub fn c11_bigwrite(base_seed: u64, i: u64, g: &GenCtx) -> Plan {
     };
     let mut data = vec![DataSpec::Random { seed: r.next(), len }];
     let m = mode(&mut r, &mut data);
-    let via = match r.below(4) {
+    let via = match r.below(6) {
         0 => AbsorbVia::Write,
         1 => AbsorbVia::WriteAll,
         2 => AbsorbVia::IoCopy(ReaderScript { steps: vec![], junk: false, tail_chunk: 0 }),
+        3 | 4 => {
+            // gathered writes: header-sized and payload-sized slices in one write_vectored call
+            let n = 2 + r.usize_below(4);
+            AbsorbVia::WriteVectored { cuts: (0..n).map(|_| *r.pick(&[0u32, 1, 8, 63, 64, 65, 1000, 1023, 1024, 1025, 4096, 70000])).collect() }
+        }
         _ => AbsorbVia::Update,
     };
+    // (gathered writes take many calls: keep those inputs moderate)
+    let len = if matches!(via, AbsorbVia::WriteVectored { .. }) { len % (200 * KIB) } else { len };
+    data[0].set_len(len);
     let ops = vec![
         Op::NewHasher { slot: 0, mode: m, via: NewVia::Inherent },
         Op::Absorb { h: 0, data: 0, off: 0, len, via },
